@@ -4,6 +4,7 @@ import (
 	"bytes"
 	"context"
 	"errors"
+	"fmt"
 	"io"
 	"net/http"
 	"sync"
@@ -292,6 +293,14 @@ func (hrw *httpReadWriter) Write(ctx context.Context, rpc *Rpc) error {
 	}
 
 	resp.Body.Close()
+
+	if resp.StatusCode != http.StatusOK {
+		// The peer answered but did not take the Rpc (it could not decode or map
+		// it, or the connection it was for has gone on its side): not delivered.
+		log.Error().Msgf("HttpRpcReadWriter: peer refused write: %s", resp.Status)
+		hrw.cancel()
+		return fmt.Errorf("peer refused rpc: %s", resp.Status)
+	}
 
 	return nil
 }
